@@ -676,8 +676,9 @@ func (s *State) applyExtension(fn object.Extension, args []object.Object) object
 	}
 	if fn.MaxArgs == -1 {
 		// Only do this for true variadic functions (maxargs == -1)
-		if l > 0 && args[l-1].Type() == object.ARRAY {
-			args = append(args[:l-1], object.Elements(args[l-1])...)
+		// the last argument may be a reference to an outer variable holding the array (ANY typed arguments keep references).
+		if l > 0 && object.Value(args[l-1]).Type() == object.ARRAY {
+			args = append(args[:l-1:l-1], object.Elements(object.Value(args[l-1]))...)
 			l = len(args)
 			log.Debugf("expending last arg now %d args %v", l, args)
 		}
